@@ -191,6 +191,8 @@ class SymNum(Sym):
         return z3.ToReal(a) if a.sort() == z3.IntSort() else a
 
     def __truediv__(self, o):
+        if not isinstance(o, Sym) and o == 0:
+            raise ZeroDivisionError("division by zero")
         a, b = arith(self, o)
         return SymNum(self._real(a) / self._real(b))
 
@@ -198,9 +200,19 @@ class SymNum(Sym):
         a, b = arith(o, self)
         return SymNum(self._real(a) / self._real(b))
 
+    FLOORDIV_MAX = 8
+
     def __floordiv__(self, o):
         if isinstance(o, int) and o > 0 and self.e.sort() == z3.IntSort():
             return SymNum(self.e / o)
+        if isinstance(o, Sym):
+            # positive reals: fork on the (small) integer quotient, which keeps every path linear; larger quotients end the path (stated bound)
+            a, b = arith(self, o)
+            a, b = self._real(a), self._real(b)
+            for q in range(0, self.FLOORDIV_MAX + 1):
+                if CUR.branch(z3.And(b > 0, a >= 0, q * b <= a, a < (q + 1) * b)):
+                    return q
+            raise Abort()
         raise Unsupported("floordiv")
 
     def __mod__(self, o):
